@@ -191,6 +191,53 @@ func c16Case(c *Ctx, name string, domains bool, links [][]string, rules [][]stri
 			c.Count("iusersres_checks", 1)
 		}
 	}
+	// users for a resource in a domain: a name counts as a role only if it is a role in that domain
+	if domains {
+		gp, _ := e.GetGroupingPolicy()
+		deep := false
+		for _, d := range doms {
+			for _, u := range names {
+				roles, _ := e.GetImplicitRolesForUser(u, d)
+				for _, r := range roles {
+					if ok, _ := rm.HasLink(u, r, d); !ok {
+						deep = true
+					}
+				}
+			}
+		}
+		for _, d := range doms {
+			isRole := map[string]bool{}
+			for _, l := range gp {
+				if len(l) > 2 && l[2] == d {
+					isRole[l[1]] = true
+				}
+			}
+			rows, err := e.GetImplicitUsersForResourceByDomain("data1", d)
+			if err != nil {
+				c.Direct("GetImplicitUsersForResourceByDomain failed", what())
+				continue
+			}
+			have := map[string]bool{}
+			for _, row := range rows {
+				have[strings.Join(row, "\x01")] = true
+				if isRole[row[0]] {
+					c.Direct("GetImplicitUsersForResourceByDomain lists a name that is a role in that domain", fmt.Sprintf("%s domain=%s row=%v", what(), d, row))
+				}
+				if ok, _ := e.Enforce(row[0], row[1], row[2], row[3]); !ok && !deep {
+					c.Direct("GetImplicitUsersForResourceByDomain lists a row that Enforce denies", fmt.Sprintf("%s domain=%s row=%v", what(), d, row))
+				}
+			}
+			for _, u := range names {
+				if isRole[u] || len(rules) == 0 {
+					continue
+				}
+				if ok, _ := e.Enforce(u, d, "data1", "read"); ok && !have[u+"\x01"+d+"\x01data1\x01read"] {
+					c.Direct("Enforce allows a name that is no role in the domain, but GetImplicitUsersForResourceByDomain does not list it", fmt.Sprintf("%s domain=%s user=%s rows=%v", what(), d, u, rows))
+				}
+			}
+			c.Count("iusersres_bydomain_checks", 1)
+		}
+	}
 	c.Evals++
 	if listed > 0 && len(rules) > 0 {
 		c.Nontrivial(what())
